@@ -4,7 +4,7 @@
    the rendered text (wf_render) and of the user's labels (labels_okb) pass.  Nothing about the parser's output or the
    emitter's chunk graph is assumed any more. *)
 From Coq Require Import List String Ascii ZArith NArith Lia Bool.
-From Pory Require Import Lexer Ast Parser Format Emitter Sem2 SemTgt Tr RenderCheck LabelSim C01Final Worklist C01Main ProgWf ProgSrc.
+From Pory Require Import Lexer Ast Parser Format Emitter Sem2 SemTgt Tr RenderCheck LabelSim C01Final Worklist WorkLabels C01Main ProgWf ProgSrc.
 Import ListNotations.
 Open Scope list_scope.
 
@@ -32,3 +32,32 @@ Proof.
   eapply emit_script_correct_src; eassumption.
 Qed.
 Print Assumptions compiled_scripts_correct.
+
+(* The same, with the label premise stated on the source text: the labels the author wrote in the script (at any nesting
+   depth) are pairwise distinct.  WorkLabels.v: the worklist conserves the labels (the chunk labels of the final graph are a
+   permutation of the labels of the body) and the label search of the source semantics finds every one of them.  The only
+   executable premise left is wf_render (the rendered text against the final graph). *)
+Theorem compiled_scripts_correct_distinct_labels
+  (St : Type) (exec : cmd -> St -> stepres St) (flag_set trainer_beaten : text -> St -> bool)
+  (cmp_var cmp_var_value : text -> text -> St -> comparison) (case_matches : text -> text -> St -> bool)
+  hl hd hs autovars switches ee fc cli_font cli_maxlen (src : text) (p : program) :
+  parse_program autovars switches ee (parse_format fc cli_font cli_maxlen ee) (lex hl hd hs src) = Parser.Ok p ->
+  forall body, In body (bodies_of (tops p)) ->
+  NoDup (dlabs body) ->
+  forall (mp : option text) (tl : list text) (name : text) (glob optimize : bool) (w : wst) (code : list instr),
+  emit_graph body = Emitter.Ok w ->
+  emit_script mp tl name glob optimize body = Emitter.Ok code ->
+  wf_render mp name (finals w) (order_of optimize (finals w)) code = true ->
+  (forall n s, exists m,
+      run sfinal (sstep St exec flag_set trainer_beaten cmp_var cmp_var_value case_matches (fun l => fl_body l body Kstop)) n (enter body Kstop) s =
+      run (@tfinal) (tstep St exec flag_set trainer_beaten cmp_var cmp_var_value case_matches code) m (jump code name) s) /\
+  (forall m s, exists n,
+      res_le (run (@tfinal) (tstep St exec flag_set trainer_beaten cmp_var cmp_var_value case_matches code) m (jump code name) s)
+             (run sfinal (sstep St exec flag_set trainer_beaten cmp_var cmp_var_value case_matches (fun l => fl_body l body Kstop)) n (enter body Kstop) s)).
+Proof.
+  intros HP body HB ND mp tl name glob optimize w code HW HE HR.
+  pose proof (accepted_bodies_are_src_ok hl hd hs autovars switches ee fc cli_font cli_maxlen src p HP) as A.
+  rewrite Forall_forall in A. destruct (A body HB) as [S _].
+  eapply compiled_scripts_correct; try eassumption. apply labels_ok_from_source; assumption.
+Qed.
+Print Assumptions compiled_scripts_correct_distinct_labels.
